@@ -871,6 +871,81 @@ def dying_client_case(ctx, seed, order):
                 pass
 
 
+def client_turnover_case(ctx, seed):
+    """Clients come and go: a random succession of connect / send / disconnect on the clients' side and poll /
+    iter_pending on the server's, with no pause that would let the server settle - a client may connect in the very
+    round that notices another one gone, several may be waiting at once, one may send and leave before it is ever
+    accepted.  Every complete message of every client comes out exactly once, each client's in order."""
+    rng = random.Random(seed)
+    case = lambda: {'kind': 'client-turnover', 'seed': seed}  # noqa: E731
+    sleeps = Sleeps(limit=300, real=0.001)
+    orig = mido.ports.sleep
+    mido.ports.sleep = sleeps
+    server = None
+    clients = {}
+    log = []
+    try:
+        server = PortServer('127.0.0.1', 0, backlog=8)
+        portno = server._socket.getsockname()[1]
+        sent = {}
+        got = []
+        nextid = 0
+
+        def take(wait=False):
+            for _ in range(60 if wait else 1):
+                try:
+                    m = server.poll()
+                    while m is not None:
+                        got.append(m)
+                        m = server.poll()
+                except OSError:
+                    pass
+                if not wait or sum(len(v) for v in sent.values()) == len(got):
+                    break
+                time.sleep(0.003)
+        for step in range(rng.randrange(4, 14)):
+            op = rng.choice(('connect', 'connect', 'send', 'send', 'disconnect', 'poll', 'poll', 'settle'))
+            log.append(op)
+            if op == 'connect' and len(clients) < 4:
+                clients[nextid] = connect('127.0.0.1', portno)
+                sent[nextid] = []
+                nextid += 1
+            elif op == 'send' and clients:
+                cid = rng.choice(sorted(clients))
+                for _ in range(rng.randrange(1, 4)):
+                    m = Message('note_on', channel=cid % 16, note=len(sent[cid]) % 128, velocity=cid // 16 + 1)
+                    clients[cid].send(m)
+                    sent[cid].append(m)
+            elif op == 'disconnect' and clients:
+                cid = rng.choice(sorted(clients))
+                clients.pop(cid).close()
+                time.sleep(0.002)
+            elif op == 'poll':
+                take()
+            elif op == 'settle':
+                take(wait=True)
+        take(wait=True)
+        for c in clients.values():
+            c.close()
+        per = {cid: [m for m in got if m.channel == cid % 16 and m.velocity == cid // 16 + 1] for cid in sent}
+        ok = all(per[cid] == sent[cid] for cid in sent) and len(got) == sum(len(v) for v in sent.values())
+        ctx.check('server hands out every client message exactly once', ok, 'client-turnover', case,
+                  lambda: {'steps': log, 'sent': {c: len(v) for c, v in sent.items()}, 'received': {c: len(v) for c, v in per.items()},
+                           'total_received': len(got)})
+    except HarnessAbort as exc:
+        ctx.check('server calls do not block', False, 'client-turnover-blocked', case, str(exc))
+    except Exception as exc:
+        ctx.fail('server hands out every client message exactly once', f'client-turnover:{type(exc).__name__}', case, repr(exc))
+    finally:
+        mido.ports.sleep = orig
+        for p in list(clients.values()) + [server]:
+            try:
+                if p is not None:
+                    p.close()
+            except Exception:
+                pass
+
+
 HOSTS = ['', 'localhost', '127.0.0.1', 'a.b-c', 'example.org', '0.0.0.0', 'host_name', 'x']
 
 
@@ -971,6 +1046,10 @@ def run(ctx):
         dying_client_case(ctx, f'{ctx.seed}:{ctx.shard}:y{j}', ('as-is', 'reversed')[(j + ctx.shard) % 2])
         ctx.nontrivial(('accept+dying', ctx.seed, ctx.shard, j))
         n += 2
+    for j in range(6 if ctx.tier == 'quick' else 400):
+        client_turnover_case(ctx, f'{ctx.seed}:{ctx.shard}:t{j}')
+        ctx.nontrivial(('turnover', ctx.seed, ctx.shard, j))
+        n += 1
     k = address_cases(ctx, ctx.shard, ctx.nshards)
     ctx.nontrivial(None, k)
     ctx.extra('address_pairs', k)
@@ -1001,6 +1080,8 @@ def replay(ctx, case):
         close_while_receiving_case(ctx, case['how'])
     elif k == 'explicit-accept':
         explicit_accept_case(ctx, case['seed'])
+    elif k == 'client-turnover':
+        client_turnover_case(ctx, case['seed'])
     elif k == 'dying-client':
         dying_client_case(ctx, case['seed'], case['order'])
     elif k == 'reply-to-departed':
